@@ -42,6 +42,17 @@ def check(run, replay=None):
     for line in open(os.path.join(run.dir, "cases.txt")):
         kind, spec, nontriv, term = line.rstrip("\n").split("\t")
         cases.append((kind, spec, nontriv == "1", term))
+    # the long random runs cost ~20x more Coq time per case than the exhaustive ones: spread them evenly
+    heavy = [c for c in cases if c[0] == "random"]
+    light = [c for c in cases if c[0] != "random"]
+    if heavy and light:
+        step = max(1, len(light) // len(heavy))
+        cases = []
+        for i, c in enumerate(light):
+            if i % step == 0 and heavy:
+                cases.append(heavy.pop())
+            cases.append(c)
+        cases += heavy
     oracle = open(os.path.join(run.dir, "oracle.txt")).read().split("\n")
     oracle_n = int(oracle[0].split()[1])
     oracle_fail = [l.split("\t")[1:] for l in oracle if l.startswith("FAIL")]
@@ -64,7 +75,7 @@ def check(run, replay=None):
                 "exh: all arrival sequences of <= 4 frames over {A1,A2 (same id), B1, C1 (36 bytes exactly), S (35 bytes)} incl. "
                 "identical duplicates, every gap in {-, Pending, End}, all sequences of <= 3 calls (<= 4 on <= 3 frames, thorough) over "
                 "{recv a, recv b (ttl 70000), wait_for(id=c), wait_for(id!=a), next}, every cancellation point (drop after k>=1 "
-                "Pending polls); quick executes a seeded 1/24 slice of the scripts with >= 3 frames. sink: <= 2 frames x poll_ready/"
+                "Pending polls); quick executes a seeded 1/8 slice of the scripts with >= 3 frames. sink: <= 2 frames x poll_ready/"
                 "start_send/poll_flush scripts with Pending/Err x <= 2 calls x cancellation incl. drop-before-first-poll. "
                 "random: long runs (<= 55 events, <= 40 calls, random ids sharing prefixes, truncated frames, ttl up to 2^32-1). "
                 "Every executed case is checked by the implementation-only oracle; a seeded sample (all random runs) is evaluated by "
